@@ -62,7 +62,7 @@ def entry_job(job):
             T = rng.uniform(290.0, 380.0)
             if rng.random() < 0.3:
                 T = float(rng.choice(membrane.ideal_experiments.experiments).temperature)
-            basis = rng.choice(["weight", "weight", "molar"])
+            basis = gen.tstr(rng, rng.choice(["weight", "weight", "molar"]))
             c = pv.Composition(p=rng.uniform(0.05, 0.95), type=basis)
             base = {"T": T, "comp": c, "prec": rng.choice([5e-5, 1e-6, 3e-4]),
                     "Tperm": rng.uniform(200.0, T - 25.0) if mode == "temp" else None,
